@@ -676,7 +676,9 @@ class NestedExtensionArray(ExtensionArray):
         """
         if pa.compute.is_null(value).as_py():
             return na_value
-        d = {name: pd.Series(np.asarray(list_scalar.values), copy=copy) for name, list_scalar in value.items()}
+        d = {
+            name: pd.Series(np.asarray(list_scalar.values), copy=copy) for name, list_scalar in value.items()
+        }
         return pd.DataFrame(d, copy=False)
 
     _chunked_array: pa.ChunkedArray
